@@ -3,6 +3,8 @@
 //!   mode lin   (C14): per-key register linearizability + final state + bounded progress
 //!   mode batch (C06): batch / transaction atomic visibility and commit-order prefix (snapshot chain)
 //!   mode single (C08): single-writer transactions never overlap, no lost update
+//!   mode views (C05): long-lived views under stress
+//!   mode ksrace (C12): keyspace create/open/delete racing on the same names
 
 use crate::hooks::tick;
 use crate::lin::{check_key, Kind, OpRec, Verdict};
@@ -1201,6 +1203,283 @@ fn views_case(seed: u64, idx: u64, thorough: bool, stats: &mut Counts) -> Result
     res.map(|()| desc)
 }
 
+
+// ---------------------------------------------------------------------------------------------
+// mode ksrace (C12): keyspace lifecycle calls racing on the same names from several threads
+
+type KsContent = BTreeMap<Vec<u8>, u64>;
+
+fn ks_content(ks: &Keyspace, what: &str) -> Result<KsContent, Deviation> {
+    let mut m = BTreeMap::new();
+    for g in ks.iter() {
+        let (k, v) = g
+            .into_inner()
+            .map_err(|e| Deviation::new("unexpected-error:scan", format!("{what}: {e:?}")))?;
+        m.insert(k.to_vec(), val_id(&v));
+    }
+    Ok(m)
+}
+
+fn show_content(m: &KsContent) -> String {
+    let v: Vec<String> = m.iter().take(12).map(|(k, id)| format!("{}=#{id}", String::from_utf8_lossy(k))).collect();
+    format!("{{{}{}}}", v.join(", "), if m.len() > 12 { ", .." } else { "" })
+}
+
+fn ksrace_case(seed: u64, idx: u64, thorough: bool, stats: &mut Counts) -> Result<String, Deviation> {
+    use std::sync::Barrier;
+    let mut rng = Rng::new(mix(&[seed, idx, 0x12]));
+    let rounds = if thorough { 36 } else { 12 };
+    let delays = *rng.pick(&[0u64, 0, 40, 150]);
+    let names = ["ra", "rb", "rc"];
+    let desc = format!("ksrace rounds={rounds} delays_permille={delays}");
+    let dir = fresh_dir("hist");
+    hooks::set_delays(delays, mix(&[seed, idx]));
+    let next_id = AtomicU64::new(1);
+    let res = (|| -> Result<(), Deviation> {
+        let mut db = Database::builder(&dir)
+            .worker_threads_unchecked(2)
+            .open()
+            .map_err(|e| Deviation::new("unexpected-error:open", format!("{e:?}")))?;
+        // reference: name -> (internal id, content) of the keyspace that exists under the name
+        let mut model: BTreeMap<&'static str, (u64, KsContent)> = BTreeMap::new();
+        // kept handles of deleted keyspaces, with the content they had
+        let mut stale: Vec<(&'static str, Keyspace)> = Vec::new();
+        let mut ever_written: BTreeMap<u64, &'static str> = BTreeMap::new();
+        let opts = || KeyspaceCreateOptions::default().max_memtable_size(4_096);
+
+        let verify = |db: &Database, model: &BTreeMap<&'static str, (u64, KsContent)>, when: &str, stats: &mut Counts| -> Result<(), Deviation> {
+            let mut listed: Vec<String> = db.list_keyspace_names().iter().map(|n| n.to_string()).collect();
+            listed.sort();
+            let want: Vec<String> = model.keys().map(|s| (*s).to_string()).collect();
+            if listed != want || db.keyspace_count() != want.len() {
+                return Err(Deviation::new(
+                    "ksrace:names",
+                    format!("{when}: keyspaces listed {listed:?} (count {}), expected {want:?}", db.keyspace_count()),
+                ));
+            }
+            for n in names {
+                if db.keyspace_exists(n) != model.contains_key(n) {
+                    return Err(Deviation::new(
+                        "ksrace:exists",
+                        format!("{when}: keyspace_exists('{n}') = {}, expected {}", db.keyspace_exists(n), model.contains_key(n)),
+                    ));
+                }
+            }
+            for (n, (id, content)) in model {
+                let h = db
+                    .keyspace(n, opts)
+                    .map_err(|e| Deviation::new("unexpected-error:keyspace", format!("{when}: {e:?}")))?;
+                if *id != u64::MAX && h.id() as u64 != *id {
+                    return Err(Deviation::new(
+                        "ksrace:identity",
+                        format!("{when}: opening the existing name '{n}' returned keyspace #{} but the handles given out earlier are of keyspace #{id}", h.id()),
+                    ));
+                }
+                let got = ks_content(&h, when)?;
+                stats.inc("ksrace.content_checks");
+                if &got != content {
+                    return Err(Deviation::new(
+                        "ksrace:content",
+                        format!(
+                            "{when}: keyspace '{n}' holds {} but every acknowledged write through handles of that name gives {}",
+                            show_content(&got),
+                            show_content(content)
+                        ),
+                    ));
+                }
+            }
+            Ok(())
+        };
+
+        for round in 0..rounds {
+            let n = *rng.pick(&names);
+            match rng.below(10) {
+                // several threads open/create the same name at once and write through their handle
+                0..=3 => {
+                    let threads = rng.range(2, 6) as usize;
+                    let barrier = Arc::new(Barrier::new(threads));
+                    let mut hs = Vec::new();
+                    for t in 0..threads {
+                        let db = db.clone();
+                        let barrier = barrier.clone();
+                        let id = next_id.fetch_add(1, Ordering::SeqCst);
+                        let spin = rng.below(200);
+                        hs.push(std::thread::spawn(move || -> Result<(u64, Vec<u8>, u64), String> {
+                            barrier.wait();
+                            for _ in 0..spin {
+                                std::hint::spin_loop();
+                            }
+                            let h = db.keyspace(n, opts).map_err(|e| format!("keyspace: {e:?}"))?;
+                            let key = format!("r{round}t{t}").into_bytes();
+                            h.insert(key.clone(), val_bytes(id)).map_err(|e| format!("insert: {e:?}"))?;
+                            Ok((h.id() as u64, key, id))
+                        }));
+                    }
+                    let mut outs = Vec::new();
+                    for h in hs {
+                        match h.join() {
+                            Ok(Ok(o)) => outs.push(o),
+                            Ok(Err(e)) => return Err(Deviation::new("unexpected-error:client-op", format!("round {round} racing open of '{n}': {e}"))),
+                            Err(_) => return Err(Deviation::new("panic", crate::take_panic())),
+                        }
+                    }
+                    let existed = model.contains_key(n);
+                    stats.inc(if existed { "ksrace.race_open_existing" } else { "ksrace.race_create" });
+                    let ids: std::collections::BTreeSet<u64> = outs.iter().map(|o| o.0).collect();
+                    if ids.len() != 1 {
+                        return Err(Deviation::new(
+                            "ksrace:two-keyspaces-for-one-name",
+                            format!("round {round}: {threads} threads opened '{n}' at the same time and got handles of {} different keyspaces {ids:?}", ids.len()),
+                        ));
+                    }
+                    let e = model.entry(n).or_insert((outs[0].0, BTreeMap::new()));
+                    for (_, key, id) in outs {
+                        e.1.insert(key, id);
+                        ever_written.insert(id, n);
+                    }
+                    verify(&db, &model, &format!("round {round}, after {threads} threads opened '{n}' (existed before: {existed}) and wrote one key each"), stats)?;
+                }
+                // threads create different names at once
+                4 => {
+                    let barrier = Arc::new(Barrier::new(names.len()));
+                    let mut hs = Vec::new();
+                    for (t, nm) in names.iter().enumerate() {
+                        let db = db.clone();
+                        let barrier = barrier.clone();
+                        let id = next_id.fetch_add(1, Ordering::SeqCst);
+                        let nm: &'static str = nm;
+                        hs.push(std::thread::spawn(move || -> Result<(u64, &'static str, Vec<u8>, u64), String> {
+                            barrier.wait();
+                            let h = db.keyspace(nm, opts).map_err(|e| format!("keyspace: {e:?}"))?;
+                            let key = format!("d{round}t{t}").into_bytes();
+                            h.insert(key.clone(), val_bytes(id)).map_err(|e| format!("insert: {e:?}"))?;
+                            Ok((h.id() as u64, nm, key, id))
+                        }));
+                    }
+                    for h in hs {
+                        match h.join() {
+                            Ok(Ok((kid, nm, key, id))) => {
+                                let e = model.entry(nm).or_insert((kid, BTreeMap::new()));
+                                e.1.insert(key, id);
+                                ever_written.insert(id, nm);
+                            }
+                            Ok(Err(e)) => return Err(Deviation::new("unexpected-error:client-op", format!("round {round} racing creates: {e}"))),
+                            Err(_) => return Err(Deviation::new("panic", crate::take_panic())),
+                        }
+                    }
+                    stats.inc("ksrace.race_create_distinct");
+                    verify(&db, &model, &format!("round {round}, after three threads opened the three names at once"), stats)?;
+                }
+                // delete, keeping the handle or not
+                5 | 6 => {
+                    if model.contains_key(n) {
+                        let h = db.keyspace(n, opts).map_err(|e| Deviation::new("unexpected-error:keyspace", format!("{e:?}")))?;
+                        db.delete_keyspace(h.clone())
+                            .map_err(|e| Deviation::new("unexpected-error:delete_keyspace", format!("{e:?}")))?;
+                        model.remove(n);
+                        stats.inc("ksrace.deletes");
+                        if h.insert("x", "y").is_ok() {
+                            return Err(Deviation::new("ksrace:stale-write-accepted", format!("round {round}: insert through a handle of deleted '{n}' was accepted")));
+                        }
+                        if rng.chance(1, 2) {
+                            stale.push((n, h));
+                        }
+                        verify(&db, &model, &format!("round {round}, after deleting '{n}'"), stats)?;
+                    }
+                }
+                // delete racing with open/create of the same name
+                7 | 8 => {
+                    if let Some((old_id, old_content)) = model.get(n).cloned() {
+                        let victim = db.keyspace(n, opts).map_err(|e| Deviation::new("unexpected-error:keyspace", format!("{e:?}")))?;
+                        let barrier = Arc::new(Barrier::new(2));
+                        let id = next_id.fetch_add(1, Ordering::SeqCst);
+                        let key = format!("x{round}").into_bytes();
+                        let a = {
+                            let db = db.clone();
+                            let barrier = barrier.clone();
+                            std::thread::spawn(move || -> Result<(), String> {
+                                barrier.wait();
+                                db.delete_keyspace(victim).map_err(|e| format!("delete_keyspace: {e:?}"))
+                            })
+                        };
+                        let b = {
+                            let db = db.clone();
+                            let barrier = barrier.clone();
+                            let key = key.clone();
+                            let spin = rng.below(400);
+                            std::thread::spawn(move || -> Result<(u64, bool), String> {
+                                barrier.wait();
+                                for _ in 0..spin {
+                                    std::hint::spin_loop();
+                                }
+                                let h = db.keyspace(n, opts).map_err(|e| format!("keyspace: {e:?}"))?;
+                                let ok = match h.insert(key, val_bytes(id)) {
+                                    Ok(()) => true,
+                                    Err(fjall::Error::KeyspaceDeleted) => false,
+                                    Err(e) => return Err(format!("insert: {e:?}")),
+                                };
+                                Ok((h.id() as u64, ok))
+                            })
+                        };
+                        let ra = a.join().map_err(|_| Deviation::new("panic", crate::take_panic()))?;
+                        let rb = b.join().map_err(|_| Deviation::new("panic", crate::take_panic()))?;
+                        ra.map_err(|e| Deviation::new("unexpected-error:client-op", format!("round {round}: {e}")))?;
+                        let (bid, wrote) = rb.map_err(|e| Deviation::new("unexpected-error:client-op", format!("round {round}: {e}")))?;
+                        stats.inc("ksrace.race_delete_vs_open");
+                        model.remove(n);
+                        if bid == old_id {
+                            // the opener got the keyspace that was then deleted: whatever it wrote is gone with it
+                            stats.inc("ksrace.race_delete_vs_open.old");
+                            let _ = (wrote, old_content);
+                        } else {
+                            // the opener created the successor: it starts empty and its write counts
+                            stats.inc("ksrace.race_delete_vs_open.new");
+                            if !wrote {
+                                return Err(Deviation::new(
+                                    "ksrace:fresh-keyspace-refuses-write",
+                                    format!("round {round}: '{n}' (#{old_id}) was deleted while another thread opened the name and got the new keyspace #{bid}, whose first insert was refused as deleted"),
+                                ));
+                            }
+                            let mut c = BTreeMap::new();
+                            c.insert(key, id);
+                            ever_written.insert(id, n);
+                            model.insert(n, (bid, c));
+                        }
+                        verify(&db, &model, &format!("round {round}, after delete_keyspace('{n}' #{old_id}) raced with an open of the name (opener got #{bid})"), stats)?;
+                    }
+                }
+                // reopen the database
+                _ => {
+                    stale.clear();
+                    timed_drop(db, "ksrace reopen")?;
+                    db = Database::builder(&dir)
+                        .worker_threads_unchecked(2)
+                        .open()
+                        .map_err(|e| Deviation::new("unexpected-error:reopen", format!("{e:?}")))?;
+                    // internal ids are allowed to be anything after a reopen as long as content matches
+                    for v in model.values_mut() {
+                        v.0 = u64::MAX;
+                    }
+                    stats.inc("ksrace.reopens");
+                    verify(&db, &model, &format!("round {round}, after reopening the database"), stats)?;
+                    for (nm, v) in &mut model {
+                        let h = db.keyspace(nm, opts).map_err(|e| Deviation::new("unexpected-error:keyspace", format!("{e:?}")))?;
+                        v.0 = h.id() as u64;
+                    }
+                }
+            }
+        }
+        stats.add("ksrace.values_written", ever_written.len() as u64);
+        stats.inc("ksrace.histories");
+        drop(stale);
+        timed_drop(db, "ksrace end")?;
+        Ok(())
+    })();
+    hooks::set_delays(0, 0);
+    rm_rf(&dir);
+    res.map(|()| desc)
+}
+
 pub fn main(args: &Args) -> i32 {
     let mode = args.str("mode", "lin");
     let property = args.str("property", "C14");
@@ -1228,6 +1507,7 @@ pub fn main(args: &Args) -> i32 {
             "lin" => lin_case(seed, idx, thorough, &mut stats),
             "batch" => batch_case(seed, idx, thorough, &mut stats),
             "views" => views_case(seed, idx, thorough, &mut stats),
+            "ksrace" => ksrace_case(seed, idx, thorough, &mut stats),
             _ => single_case(seed, idx, thorough, &mut stats),
         }));
         crate::watchdog::end_case();
@@ -1275,7 +1555,7 @@ pub fn main(args: &Args) -> i32 {
         }
         match res {
             Ok(desc) => {
-                let nontrivial = stats.get("point.worker.flush.after_run") > 0;
+                let nontrivial = stats.get("point.worker.flush.after_run") > 0 || stats.get("ksrace.race_create") + stats.get("ksrace.race_delete_vs_open") > 0;
                 emit(&J::obj(vec![
                     ("t", J::s("case")),
                     ("idx", J::U(idx)),
@@ -1284,7 +1564,7 @@ pub fn main(args: &Args) -> i32 {
                         "key",
                         J::s(format!(
                             "{idx}:{}:{}:{}",
-                            stats.get("lin.ops_checked") + stats.get("batch.views") + stats.get("single.increments") + stats.get("viewstress.views"),
+                            stats.get("lin.ops_checked") + stats.get("batch.views") + stats.get("single.increments") + stats.get("viewstress.views") + stats.get("ksrace.content_checks"),
                             stats.get("point.worker.flush.after_run"),
                             stats.get("point.write.drawn") + stats.get("point.batch.drawn")
                         )),
